@@ -45,6 +45,8 @@ def provenance(case, g: dict):
 
     if max(g["r"], g["c"]) > 127:
         return None
+    if isinstance(case, dict) and case.get("dtype"):
+        return case["dtype"]
     return (None, None, "int8", "int8", "int16", "int32")[digest(case) % 6]
 
 
